@@ -38,6 +38,20 @@ def safe_str(t):
         return "exc:" + type(e).__name__
 
 
+def safe_view(t):
+    """everything a caller can read off a tree without the heap projection: text, MathML, terminal text, per-node classes / ids / change marks"""
+    out = [safe_str(t)]
+    small = len(rewrite.inorder(t)) <= 40        # to_math_ml of a deep product takes exponential time
+    for f in (lambda: t.to_math_ml() if small else "", lambda: t.terminal_text if small else "", lambda: [list(getattr(n, "classes", [])) for n in rewrite.inorder(t)],
+              lambda: [getattr(n, "_changed", None) for n in rewrite.inorder(t)], lambda: [getattr(n, "r_index", None) for n in rewrite.inorder(t)],
+              lambda: [(getattr(n, "x", None), getattr(n, "y", None), getattr(n, "offset", None)) for n in rewrite.inorder(t)]):
+        try:
+            out.append(repr(f()))
+        except BaseException as e:  # noqa
+            out.append("exc:" + type(e).__name__)
+    return "\n".join(out)
+
+
 def safe_eval(t):
     try:
         return "v:%r" % (t.evaluate(dict(CTX)),)
@@ -88,7 +102,7 @@ def make_events(case):
         for n in rewrite.inorder(c):
             owner[objs.of(n) - 1] = 2
         for which, (mut_root, other_root, other_id) in (("clone", (c, tree, 1)), ("orig", (tree, c, 2))):
-            for mut in case.get("mutations", ["payload", "relink", "rotate"]):
+            for mut in case.get("mutations", ["payload", "relink", "rotate", "api"]):
                 # fresh pair for each mutation so that they do not accumulate
                 t2 = build_tree(case)
                 if t2 is None:
@@ -100,7 +114,7 @@ def make_events(case):
                 own = [0] * len(o2)
                 for n in rewrite.inorder(b):
                     own[o2.of(n) - 1] = 7
-                before = (safe_str(b), safe_eval(b)) if is_expr else ("", "")
+                before = (safe_view(b), safe_eval(b)) if is_expr else ("", "")
                 try:
                     mutate(a, mut)
                 except BaseException:  # noqa
@@ -108,7 +122,7 @@ def make_events(case):
                 h2 = snap(o2, [])
                 while len(own) < len(o2):
                     own.append(0)
-                after = (safe_str(b), safe_eval(b)) if is_expr else ("", "")
+                after = (safe_view(b), safe_eval(b)) if is_expr else ("", "")
                 out.append({"typ": "mutate", "case": case, "which": which, "mut": mut, "hb": hb2, "h": h2, "owner": own, "other": 7,
                             "str_before": before[0], "str_after": after[0], "eval_before": before[1], "eval_after": after[1]})
     # ---- clone_from_root on every node, both call forms
@@ -247,6 +261,23 @@ def mutate(root, how):
         kids = [n for n in nodes if n.parent is not None]
         if kids:
             kids[len(kids) // 2].rotate()
+    elif how == "api":
+        # every other public way to change a node: classes, change marks, layout coordinates, rule bookkeeping
+        from mathy_core.layout import TreeLayout
+        for k, n in enumerate(nodes):
+            for f in (lambda: n.add_class("mark-%d" % k), lambda: n.add_class(["a", "b"]), lambda: n.set_changed(), lambda: setattr(n, "r_index", k + 100),
+                      lambda: n.clear_classes() if k % 3 == 0 else None, lambda: n.add_class("late")):
+                try:
+                    f()
+                except BaseException:  # noqa
+                    pass
+        try:
+            root.all_changed()
+            TreeLayout().layout(root, 3, 7)
+            for r in rewrite.rules():
+                r[2].find_nodes(root)
+        except BaseException:  # noqa
+            pass
 
 
 TEXTS = ["-(4! * x) + y", "7 - -(2!)", "-(3!)", "-(3^2 * x)", "3 / -((x + 1) * y)", "(x^y)^z", "3.0x + 2.0", "7.0^30 * y - 2", "1.0", "2.50x^2.0", "4x + 2y^3", "-(2y + 3)^2", "sgn(x - 7)", "3!", "5! + x", "4(x + 2) + 7y", "x = 2y + 1", "2x * 3x * x", "0.5x^2 - -3", "(x + 1)(x - 1)",
@@ -273,7 +304,7 @@ def domain(ctx):
         cases.append({"src": "shape", "shape": random_shape(rng, rng.randint(n + 1, 10)), "cls": rng.choice(["expr", "uniform"]), "mutations": [rng.choice(["payload", "relink", "rotate"])]})
     return cases, ("%d parser texts; 8 rewrite-step results (repeated node ids); every shape <= %d nodes built through the public constructors as mixed-kind / all-equal-kind expression trees "
                    "(one-operand nodes with the operand on either side) and plain nodes; seeded random shapes up to 10 nodes; clone(), clone_from_root on every node in three call forms and again after an in-place change of the node's ancestors (rotate, swap, new root, restate), "
-                   "then payload / relink / rotate mutations of either side" % (len(TEXTS), n))
+                   "then payload / relink / rotate / public-API (classes, change marks, layout, find_nodes) mutations of either side, the other side observed through the heap, str, MathML, terminal text, classes and evaluate" % (len(TEXTS), n))
 
 
 def sig(ev, clauses):
